@@ -391,7 +391,7 @@ func TestC03_Pools(t *testing.T) {
 
 func TestC03_Random(t *testing.T) {
 	r := newPRNG("C03_Random")
-	n := nCases(350_000, 7_000_000)
+	n := nCases(1_000_000, 10_000_000)
 	for i := 0; i < n; i++ {
 		lit, class := prngNumberLit(r)
 		c03Eval(t, lit, r.intn(len(c03Contexts)), class)
@@ -401,7 +401,7 @@ func TestC03_Random(t *testing.T) {
 
 // TestC03_Rapid: the rapid literal generator (shared with the document generators), so that failures shrink.
 func TestC03_Rapid(t *testing.T) {
-	runRapid(t, "C03_Rapid", nCases(30_000, 400_000), func(t *rapid.T) {
+	runRapid(t, "C03_Rapid", nCases(80_000, 800_000), func(t *rapid.T) {
 		lit := genNumberLit(t)
 		c03Eval(t, lit, rapid.IntRange(0, len(c03Contexts)-1).Draw(t, "ctx"), "rapid")
 	})
